@@ -74,7 +74,8 @@ Record schema := {
   query : name;
   mutation : option name;
   subscription : option name;
-  directives : list (name * list (name * sty))
+  directives : list (name * list (name * sty));
+  additional : list name                     (* SchemaDefinition.AdditionalTypes *)
 }.
 
 Inductive kind := KScalar | KEnum | KInput | KObject | KInterface | KUnion.
@@ -225,7 +226,8 @@ Definition schema_ok_gen (fx : fixes) (S : schema) : bool :=
   nodup (map fst (types S)) &&
   forallb (fun nt => type_ok S (snd nt)) (types S) &&
   root_ok fx S (Some (query S)) && root_ok fx S (mutation S) && root_ok fx S (subscription S) &&
-  forallb (directive_ok fx S) (directives S).
+  forallb (directive_ok fx S) (directives S) &&
+  forallb (fun n => match lookup S n with Some _ => true | None => false end) (additional S).
 
 Definition schema_ok : schema -> bool := schema_ok_gen fixed.
 
